@@ -374,11 +374,16 @@ class Run:
         self.events.append(("compact", out))
         t = out.split(" ")
         if t[0] == "PANIC":
-            # panics of the selector (find_best_compaction's assertions) are C01/C20's subject; a
-            # panic inside the transaction code would leave books that the next inspection flags
-            ins, _ = self.sync("panicked compaction")
-            self.outside = "compaction step panicked (selector); the session cannot continue"
-            self.problem("outside", what=self.outside)
+            msg = " ".join(t[2:])
+            selector = "assertion_failed:" in msg and any(x in msg for x in ("ssts[", "first_key", "last_key", "lower_bound", "upper_bound", "levels"))
+            self.sync("panicked compaction")
+            if selector:
+                # the assertions of next_compaction / find_best_compaction are C01/C20's subject
+                self.outside = "compaction step panicked in the selector (%s); the session cannot continue" % msg[-90:]
+                self.problem("outside", what=self.outside)
+            else:
+                # e.g. assert_eq!(tree_setsum, output_setsum) or a Setsum subtraction underflow
+                self.problem("property", what="a compaction panicked outside the selector", panic=msg[:400])
             self.dead = True
             return False
         if t[0] != "COMPACT":
